@@ -6,7 +6,8 @@ from lib import esc_list
 
 THEOREMS = ['C10.C10_merge_preserves_meaning', 'C10.C10_merge_values_union', 'C10.C10_absorb_shrinks', 'C10.C10_case_drop',
             'C10.C10_empty_access_narrowed', 'C10.C10_mount_options_fused', 'C10.C10_exec_modes_fused',
-            'C10.C10_signal_not_idempotent']
+            'C10.C10_signal_not_idempotent', 'C10.C10_den_preserved_partial', 'C10.C10_dup_only_identical_partial',
+            'C10.C10_merge_contract', 'C10.C10_dup_contract']
 # kind -> indices of the list fields that Merge unites
 MERGED = {'mqueue': [0], 'io_uring': [0], 'ptrace': [0], 'unix': [0], 'dbus': [0], 'file': [2], 'signal': [0, 1], 'variable': [1]}
 MOUNTS = ('mount', 'umount', 'remount')
@@ -202,7 +203,9 @@ def run(ctx):
         ctx.violation('obligation or correspondence broken: ' + '; '.join(broken)[:600], {'broken': broken}, concrete=False)
     ctx.cov['broken'] += broken
     ctx.assumptions += ['comments carry no meaning; Base flags (no new privs, file inherit, optional) are bookkeeping',
-                        'the per-kind merge/duplicate contracts of C10_merge_preserves_meaning are validated by this search, not proved per kind']
+                        'C10_den_preserved_partial is proved on Dom10 (19 kinds, strings over the sort alphabet, named permissions); outside '
+                        'it (mount kinds, empty permission lists, upper case / foreign bytes, comment/hat/profile) the search on the real code is what speaks',
+                        'the Python meaning function of the search mirrors Aa.den (same facts); it is not generated from it']
 
 
 def replay(ctx, data):
